@@ -345,7 +345,7 @@ func (ex *Exec) applyContract(st *State, in ssa.Instruction, ord int, name strin
 	for _, ls := range spec.Loops {
 		for _, g := range ls.Ghosts {
 			if _, bound := eenv.vars[g.Name]; !bound {
-				w := Sc{ex.ctx.Fresh("wit_"+sanitize(short)+"_"+g.Name, ghostSortOf(g.Init))}
+				w := Sc{ex.ctx.Fresh("wit_"+sanitize(short)+"_"+g.Name, ghostSortAt(st, g.Init))}
 				eenv.vars[g.Name] = TV{w, nil}
 				if prev, ok := st.ghost[short+"_"+g.Name]; ok {
 					st.setGhost(short+"_prev_"+g.Name, prev) // the call before the most recent one
